@@ -3,14 +3,16 @@ import TxdbusModel.Wire.Cost
 /-!
 Driver for property C05 (cost model of the decoder).  One operation per line:
 
-  u <chk> <le> <off> <sig strhex> <data hex>
-        marshal.unmarshal(sig, data, off, lendian=le, oobFDs=[]); chk=1 the repaired array loop, chk=0 the loop before 635620f
-     -> `<status> <consumed> <steps> <depth> <frames> <size>`
-  p <fix> <data hex>
-        message.parseMessage(data, []); fix=1 the repaired code (signature field must be a str of <= 255 chars)
-     -> `<status> <steps> <depth> <frames> <size> <body>`      body: 0 none, 1 decoded, 2 signature field rejected
-  b <sig strhex> <data hex> <off>     -> `<fuelFor> <stepBound>`   the proved bounds
-  pb <data hex>                        -> `<parseFuel> <parseStepBound>`
+  u <chk> <le> <off> <fds> <sig strhex> <data hex>
+        marshal.unmarshal(sig, data, off, lendian=le, oobFDs=fds); chk=1 the repaired array loop, chk=0 the loop before 635620f;
+        fds: `N` = None, `-` = [], else comma-separated descriptor numbers; run at the fuel of the theorems (`fuelFor`)
+     -> `<status> <consumed> <steps> <depth> <frames> <size> <work> <chars>`
+  p <fix> <fds> <data hex>
+        message.parseMessage(data, fds); fix=1 the repaired code (signature field must be a str of <= 255 chars), run at
+        exactly `parseFuel` (the fuel of parseMessage_total); fix=0 the code before d5434a8 (more fuel: long signatures)
+     -> `<status> <steps> <depth> <frames> <size> <body> <work> <chars>`      body: 0 none, 1 decoded, 2 signature field rejected
+  b <sig strhex> <data hex> <off>     -> `<fuelFor> <stepBound> <workBound>`   the proved bounds
+  pb <data hex>                        -> `<parseFuel> <parseStepBound> <parseWorkBound>`
 
 status: `ok` | `err:<ExceptionClass>` | `fuel` (the model ran out of fuel: never, by unmarshal_fuel_adequate)
 -/
@@ -33,31 +35,37 @@ def stName : Status → String
 def flag? (s : String) : Option Bool :=
   if s == "1" then some true else if s == "0" then some false else none
 
+def fds? (s : String) : Option (Option (List Nat)) :=
+  if s == "N" then some none
+  else if s == "-" then some (some [])
+  else (s.splitOn ",").mapM String.toNat? |>.map some
+
 def step (line : String) : String :=
   match words line with
-  | ["u", chk, le, off, sigh, datah] =>
-    match flag? chk, flag? le, off.toNat?, hexToChars? sigh, hexToBytes? datah with
-    | some chk, some le, some off, some sig, some data =>
-      let r := unmarshal genTables chk (fuelFor sig data) sig data off le
-      s!"{stName r.st} {r.off - off} {r.steps} {r.depth} {r.frames} {r.size}"
-    | _, _, _, _, _ => "bad-input"
-  | ["p", fix, datah] =>
-    match flag? fix, hexToBytes? datah with
-    | some fix, some data =>
+  | ["u", chk, le, off, fds, sigh, datah] =>
+    match flag? chk, flag? le, off.toNat?, fds? fds, hexToChars? sigh, hexToBytes? datah with
+    | some chk, some le, some off, some fds, some sig, some data =>
+      let r := unmarshal genTables chk fds (fuelFor sig data) sig data off le
+      let consumed := match r.st with | .ok => r.off - off | _ => 0
+      s!"{stName r.st} {consumed} {r.steps} {r.depth} {r.frames} {r.size} {r.work} {r.chars}"
+    | _, _, _, _, _, _ => "bad-input"
+  | ["p", fix, fds, datah] =>
+    match flag? fix, fds? fds, hexToBytes? datah with
+    | some fix, some fds, some data =>
       let hf := Txdbus.Gen.C05Wire.headerFormat
-      let fuel := parseFuel hf data + 2 * data.length
-      let r := parseMessage genTables hf Txdbus.Gen.C05Wire.mtypeKeys Txdbus.Gen.C05Wire.signatureCode fix fuel data
-      s!"{stName r.st} {r.steps} {r.depth} {r.frames} {r.size} {r.body}"
-    | _, _ => "bad-input"
+      let fuel := if fix then parseFuel hf data else parseFuel hf data + 2 * data.length
+      let r := parseMessage genTables hf Txdbus.Gen.C05Wire.mtypeKeys Txdbus.Gen.C05Wire.signatureCode fix fds fuel data
+      s!"{stName r.st} {r.steps} {r.depth} {r.frames} {r.size} {r.body} {r.work} {r.chars}"
+    | _, _, _ => "bad-input"
   | ["b", sigh, datah, off] =>
     match hexToChars? sigh, hexToBytes? datah, off.toNat? with
-    | some sig, some data, some off => s!"{fuelFor sig data} {stepBound sig data off}"
+    | some sig, some data, some off => s!"{fuelFor sig data} {stepBound sig data off} {workBound sig data off}"
     | _, _, _ => "bad-input"
   | ["pb", datah] =>
     match hexToBytes? datah with
     | some data =>
       let hf := Txdbus.Gen.C05Wire.headerFormat
-      s!"{parseFuel hf data} {parseStepBound hf data}"
+      s!"{parseFuel hf data} {parseStepBound hf data} {parseWorkBound hf data}"
     | _ => "bad-input"
   | _ => "bad-input"
 
